@@ -59,7 +59,55 @@ func c16Body(c *sim.Ctx, first byte) *ref.AP {
 	return a
 }
 
+// c16Huge: very large bodies (at and above 2^24 bytes) for type 0 and PUBLISH:
+// the dispatch and "carries the frame's bytes" must hold at every size.
+func c16Huge(c *sim.Ctx) *sim.Violation {
+	t := c.T
+	sizes := []int{1 << 24, 1<<24 + 5, 1<<24 - 1, 1<<21 + 3}
+	n := sizes[t.Int(len(sizes))]
+	if c.Thorough && t.Bool(1, 4) {
+		n = 1<<27 + t.Int(9)
+	}
+	for _, first := range []byte{byte(t.Int(16)), 0x30 | byte(t.Int(2))} {
+		var frame, body []byte
+		if first>>4 == 0 {
+			body = make([]byte, n)
+			for i := 0; i < n; i += 4093 {
+				body[i] = byte(i)
+			}
+			body[n-1] = 0xEE
+			frame = append(ref.AppendVarint([]byte{first}, uint32(n)), body...)
+		} else {
+			body = append([]byte{0, 1, 't', 0}, make([]byte, n-4)...)
+			body[n-1] = 0xEE
+			frame = append(ref.AppendVarint([]byte{first}, uint32(n)), body...)
+		}
+		got := ReadOne(link.NewReader(c, frame, link.Mode{}))
+		sig := func(what string) string { return fmt.Sprintf("C16/0x%02X/huge-body/%s", first, what) }
+		if got.Kind != "packet" || got.Type != first>>4 {
+			return sim.V(sig("not-decoded"), "first byte 0x%02X with a body of %d bytes: %s", first, n, got)
+		}
+		switch p := got.P.(type) {
+		case *mq.Undefined:
+			if !bytes.Equal(p.Data(), body) {
+				return sim.V(sig("undefined-data"), "first byte 0x%02X with a body of %d bytes: Undefined.Data() holds %d bytes", first, n, len(p.Data()))
+			}
+		case *mq.Publish:
+			if len(p.Payload()) != n-4 || p.Retain() != (first&1 != 0) {
+				return sim.V(sig("publish"), "PUBLISH with a body of %d bytes: payload %d bytes, retain %v", n, len(p.Payload()), p.Retain())
+			}
+		}
+		c.Count("probe.body-of-2^24-bytes-or-more")
+	}
+	return nil
+}
+
 func runC16(c *sim.Ctx) *sim.Violation {
+	if c.Run%100 == 7 {
+		if v := c16Huge(c); v != nil {
+			return v
+		}
+	}
 	for fb := 0; fb < 256; fb++ {
 		first := byte(fb)
 		a := c16Body(c, first)
